@@ -556,6 +556,7 @@ func genC18(e *emitter) {
 	e.facts["c18_content_type_sets"] = ctSets
 	e.facts["c18_echo_sites"] = echoes
 	e.facts["c18_form_params"] = params
+	e.facts["c18_form_param_values"] = c18ParamValues(c, fileNames)
 	e.facts["c18_failure_text_format"] = failFmt
 	e.facts["c18_raw_html_sites"] = sites
 	e.facts["c18_safe_fields"] = fields
@@ -747,4 +748,111 @@ func c18ConstValues(p *pkgInfo, c *c18ctx, fd *ast.FuncDecl, e ast.Expr) ([]stri
 		out = append(out, s)
 	}
 	return out, true
+}
+
+// c18ParamValues (round 3): for every form parameter, the string constants the code compares it
+// with (`r.Form.Get("p") == "lit"`, `v := r.Form.Get("p"); switch v { case "lit": … }`).  These
+// are the request options a handler knows — the generator sends each of them, so that an opt-in
+// request option is exercised as soon as it exists in the tree.
+func c18ParamValues(c *c18ctx, fileNames []string) map[string][]string {
+	p := c.p
+	out := map[string]map[string]bool{}
+	add := func(param, v string) {
+		if out[param] == nil {
+			out[param] = map[string]bool{}
+		}
+		out[param][v] = true
+	}
+	formParam := func(e ast.Expr) (string, bool) {
+		ce, ok := e.(*ast.CallExpr)
+		if !ok || len(ce.Args) != 1 {
+			return "", false
+		}
+		sel, ok := ce.Fun.(*ast.SelectorExpr)
+		if !ok {
+			return "", false
+		}
+		name, isConst := p.evalStr(ce.Args[0])
+		if !isConst {
+			return "", false
+		}
+		switch sel.Sel.Name {
+		case "FormValue", "PostFormValue":
+			return name, true
+		case "Get":
+			if inner, ok := sel.X.(*ast.SelectorExpr); ok && (inner.Sel.Name == "Form" || inner.Sel.Name == "PostForm") {
+				return name, true
+			}
+		}
+		return "", false
+	}
+	for _, n := range fileNames {
+		for _, d := range p.files[n].Decls {
+			fd, ok := d.(*ast.FuncDecl)
+			if !ok || fd.Body == nil {
+				continue
+			}
+			local := map[string]string{} // local variable -> form parameter
+			ast.Inspect(fd.Body, func(nd ast.Node) bool {
+				if as, ok := nd.(*ast.AssignStmt); ok && len(as.Lhs) == len(as.Rhs) {
+					for i, l := range as.Lhs {
+						if id, ok := l.(*ast.Ident); ok {
+							if prm, ok := formParam(as.Rhs[i]); ok {
+								local[id.Name] = prm
+							}
+						}
+					}
+				}
+				return true
+			})
+			paramOf := func(e ast.Expr) (string, bool) {
+				if prm, ok := formParam(e); ok {
+					return prm, true
+				}
+				if id, ok := e.(*ast.Ident); ok {
+					prm, ok := local[id.Name]
+					return prm, ok
+				}
+				return "", false
+			}
+			ast.Inspect(fd.Body, func(nd ast.Node) bool {
+				switch x := nd.(type) {
+				case *ast.BinaryExpr:
+					if x.Op == token.EQL || x.Op == token.NEQ {
+						for _, pr := range [][2]ast.Expr{{x.X, x.Y}, {x.Y, x.X}} {
+							if prm, ok := paramOf(pr[0]); ok {
+								if v, ok := p.evalStr(pr[1]); ok {
+									add(prm, v)
+								}
+							}
+						}
+					}
+				case *ast.SwitchStmt:
+					if x.Tag == nil {
+						return true
+					}
+					if prm, ok := paramOf(x.Tag); ok {
+						for _, st := range x.Body.List {
+							if cc, ok := st.(*ast.CaseClause); ok {
+								for _, ce := range cc.List {
+									if v, ok := p.evalStr(ce); ok {
+										add(prm, v)
+									}
+								}
+							}
+						}
+					}
+				}
+				return true
+			})
+		}
+	}
+	res := map[string][]string{}
+	for k, vs := range out {
+		for v := range vs {
+			res[k] = append(res[k], v)
+		}
+		sort.Strings(res[k])
+	}
+	return res
 }
